@@ -113,7 +113,7 @@ CHECKS["C12"] = (CHECKS["C12"][0], CHECKS["C12"][1].replace("(All pairs for larg
 ENGINES.append({"name": "widemon", "path": "harness/widemon.cpp, vlib/wide.py", "serves_properties": ["C14", "C12", "C13", "C18"], "kind_free_text": "one generated machine per state count 1..255"})
 ENGINES.append({"name": "wideplan", "path": "harness/wideplan.cpp, vlib/wide.py", "serves_properties": ["C08", "C09", "C10"], "kind_free_text": "plans on machines of 4..255 states, every state as origin, capacities below/above the state count"})
 ENGINES.append({"name": "cfgorder", "path": "harness/cfgorder.cpp, harness/cfg_orders.inc", "serves_properties": ["C01", "C04", "C06", "C07", "C10"], "kind_free_text": "the five configuration aliases chained in all 120 orders"})
-ENGINES.append({"name": "fsmmon", "path": "harness/fsmmon.cpp (+fsm_*.hpp), vlib/fsm.py", "serves_properties": ["C01","C02","C03","C04","C05","C06","C07","C08","C09","C10","C11","C12","C15","C16","C17","C18"],
+ENGINES.append({"name": "fsmmon", "path": "harness/fsmmon.cpp (+fsm_*.hpp), vlib/fsm.py", "serves_properties": ["C01","C02","C03","C04","C05","C06","C07","C08","C09","C10","C11","C12","C14","C15","C16","C17","C18"],
                 "kind_free_text": "instrumented machine configurations driven by seeded/enumerated histories with online trace monitors"})
 
 NOT_YET = "check not yet built at this commit (work in progress, see DESIGN.md section 7a); nothing is claimed for it yet"
